@@ -358,7 +358,15 @@ def _check_handler_guards(run, world, folder, mod, c):
            for n in ast.walk(fn0)):
         from ..unroll import expand_table_lookups, class_table_resolver
         fx = acopy(fn0)
-        rt_, nn_ = class_table_resolver(world, c, SER)
+        rt0_, nn_ = class_table_resolver(world, c, SER)
+        ldefs = astq._defs(fx)
+
+        def rt_(e_):
+            # a table kept in a local bound once to a dict display
+            if isinstance(e_, ast.Name) and isinstance(
+                    ldefs.get(e_.id), ast.Dict):
+                return ldefs[e_.id]
+            return rt0_(e_)
         if expand_table_lookups(fx, rt_, nn_):
             ast.fix_missing_locations(fx)
             fn0 = fx
